@@ -163,6 +163,10 @@ fn main() {
                 run = Run::new("C12", &tier, "model_checking");
                 engines::c12::run(&mut run);
             }
+            "C02" => {
+                run = Run::new("C02", &tier, "model_checking");
+                engines::c02::run(&mut run);
+            }
             "C10" => {
                 run = Run::new("C10", &tier, "model_checking");
                 engines::c10::run(&mut run);
@@ -197,6 +201,7 @@ fn replay(dir: &str) -> i32 {
         "c17" => engines::c17::replay(case),
         "c13" => engines::c13::replay(case),
         "faults" => engines::faults::replay(case),
+        "c02" => engines::c02::replay(case),
         "c12" => engines::c12::replay(case),
         "c11" => engines::c11::replay(case),
         "c20" => engines::c20::replay(case),
